@@ -77,6 +77,7 @@ class SObj:
 
     def __init__(self, cls=None, fields=None, name="obj"):
         self.cls, self.fields, self.name = cls, dict(fields or {}), name
+        self.handmade = True  # built by a sidecar with the fields it expects (Interp.instantiate clears this: __init__ really ran)
 
     def __repr__(self):
         return "<SObj %s %s>" % (getattr(self.cls, "__name__", self.cls), list(self.fields))
@@ -543,6 +544,7 @@ class Interp:
 
     def instantiate(self, cls, args, kwargs):
         obj = SObj(cls)
+        obj.handmade = False
         init = self.find_method(cls, "__init__")
         if init is not None:
             self.call(BoundMethod(obj, *init), args, kwargs)
@@ -1161,11 +1163,22 @@ class Interp:
                 m = self.find_method(obj.cls, name)
                 if m is not None:
                     fdef, module, owner = m
-                    if any(isinstance(d, ast.Name) and d.id == "property" for d in fdef.decorator_list):
+                    decos = {d.id for d in fdef.decorator_list if isinstance(d, ast.Name)}
+                    if "property" in decos:
                         return self.call_def(fdef, module, [obj], {}, cls=owner)
+                    if "staticmethod" in decos:  # no implicit first argument
+                        return Closure(fdef, module, None, cls=owner)
+                    if "classmethod" in decos:  # the class is the implicit first argument
+                        return BoundMethod(obj.cls, fdef, module, owner)
+                    if decos - {"overload"}:
+                        raise Unsupported("method %s with decorator(s) %s" % (name, sorted(decos)))
                     return BoundMethod(obj, fdef, module, owner)
                 if hasattr(obj.cls, name) and is_concrete(getattr(obj.cls, name)):
                     return getattr(obj.cls, name)  # class-level constant
+            if getattr(obj, "handmade", False):
+                # the sidecar listed the fields it expects the verified function to touch; another one is a gap of the sidecar's
+                # object, not an AttributeError of the real code: undecided, never a violation
+                raise Unsupported("attribute %s of the sidecar-made object %s" % (name, obj.name))
             raise PyRaise("AttributeError", name)
         if isinstance(obj, SuperProxy):
             m = self.find_method(obj.obj.cls, name, after=obj.cls)
